@@ -7,6 +7,7 @@ use std::ops::{Range, RangeInclusive};
 use std::path::{Path, PathBuf};
 
 //@include prelude/anyhow.rs
+//@include prelude/tstr_mod.rs
 //@include prelude/regex.rs
 
 verus! {
@@ -124,9 +125,6 @@ fn v2_loop<'a>(
     let ghost keys = keys_of(re, content_of(block_with_context.block, file_blocks.file_content@));
     let ghost mut reported: Option<int> = None;
 //@macro rule=E1 name=anyhow to=<<anyhow::verif_err()>>
-//@edit rule=ghost before=<<let line_match = match &re>>
-                    // (a `broadcast use` must sit inside the loop body to be visible to the body's query)
-                    broadcast use vstd::std_specs::hash::group_hash_axioms, axiom_str_key_model, axiom_str_view_injective;
 //@edit rule=ghost before=<<let (violation_line_number, character_offset)>>
                         assert(is_dup(keys, line_number as int));
 //@edit rule=ghost before=<<if let Some((matched_line, line_range)) = line_match>>
@@ -137,10 +135,8 @@ fn v2_loop<'a>(
 verif_map_push(violations, file_path.clone(),
 //@edit rule=ghost after=<<line_character_end, )?);>>
                         proof { reported = Some(line_number as int); }
-//@edit rule=E9 find=<<trimmed_line.as_ptr() as usize - line.as_ptr() as usize>>
-verif_offset_in(trimmed_line, line)
-//@edit rule=E9b find=<<trimmed_line.len()>>
-verif_str_len(trimmed_line)
+//@edit rule=E9 find=<<$a.as_ptr() as usize - $b.as_ptr() as usize>> count=all optional=1
+verif_offset_in($a, $b)
 //@closure rule=E12 find=<<|m|>> params=<<|m: regex::Match<'a>|>> ret=<<res: (&'a str, RangeInclusive<usize>)>>
     ensures res.0@ == regex::match_view(m).text, res.1@.start == regex::match_view(m).start + 1, res.1@.end == regex::match_view(m).end
 //@end
